@@ -301,6 +301,7 @@ def tool_output_regexes_anchored(ctx, rule):
 
 
 def run(ctx):
+    ctx.rule('R16.10', 'fields read from a diff entry exist for every op that the surrounding op tests still allow (field table from the op_* constructors)', floor=6)
     ctx.rule('R16.9', 'name binding: every global name a function refers to is bound at module level or builtin, and every local is assigned on every path before it is read', floor=4)
     ctx.rule('R16.8', 'every exactly resolved call binds against its callee\'s signature (no missing/unknown/surplus argument on any arm)', floor=2)
     ctx.rule('R16.7', 'regexes that strip tool chatter from external diff output are anchored at a line start (re.M + ^)', floor=1)
@@ -315,3 +316,5 @@ def run(ctx):
     call_compat(ctx, 'R16.8', ['nbdime.prettyprint', 'nbdime.nbshowapp', 'nbdime.nbdiffapp', 'nbdime.vcs.git.diffdriver'], 'rendering fails for the diffs/decisions that reach this arm')
     from ..names import name_binding
     name_binding(ctx, 'R16.9', ['nbdime.prettyprint', 'nbdime.nbshowapp', 'nbdime.nbdiffapp', 'nbdime.vcs.git.diffdriver'])
+    from ..opfields import check_op_fields
+    check_op_fields(ctx, 'R16.10', ['nbdime.prettyprint'])
